@@ -160,9 +160,11 @@ prop('C09',
 
 prop('C12',
      level='proof',
-     claim='Numeric payload only (proof): the TTL serializers print duration.as_millis(), parse_ttl / the follow-option parser build '
-           'Duration::from_millis of the parsed number, so every ms-granular TTL/heartbeat round-trips and every parsed duration '
-           'satisfies is_expired\'s precondition. The text grammar is checked by the bounded Kani units when present.',
+     claim='Verus, unbounded: parse_ttl (whole function) accepts exactly the keywords, head:N with N parsed as a u32 and N >= 1, and '
+           'time:N with N parsed as a u64 of milliseconds; the TTL serializers print duration.as_millis() and the parsers build '
+           'Duration::from_millis, so every ms-granular TTL / heartbeat round-trips numerically; ReadOptions::to_query_string sends '
+           'every non-default option under the field name the server parser reads (tail also without follow). What std integer '
+           'parsing / Display and the url / serde_urlencoded crates do with the text is assumed.',
      technique=TECH,
      units=['verus:expiry', 'verus:codec_ops'],
      obligations=['expiry.ttl.*', 'expiry.follow.*', 'expiry.ttl_*.body', 'expiry.parse_ttl_time_ctor.body', 'expiry.follow_*.body',
